@@ -8,7 +8,7 @@ from gen.split import variant
 from encode import enc, NsTable
 from props.c06 import strip
 
-PROF = profile(tokens=True, no_textbox_in_link=True, math_markup=True, p_math=0.12, p_text=0.65, run_items=(1, 3), inlines=(1, 4), p_rpr=0.5, p_table=0.12,
+PROF = profile(tokens=True, math_markup=True, p_math=0.12, p_text=0.65, run_items=(1, 3), inlines=(1, 4), p_rpr=0.5, p_table=0.12,
                p_textbox=0.0, p_header=0.6, p_double_rel=0.4, p_footnotes=0.5, p_link=0.08, blocks=(1, 4))
 RULE = ('token documents (text free of line separators); 1-3 replacement pairs whose needles are substrings of one literal text node of the '
         'original (or absent), replacements empty / multi-line (\\n, \\r\\n, trailing newline) / with markup characters / containing the next needle; '
